@@ -1,22 +1,101 @@
-import EpModel.Model.Dec.Headers
-import EpModel.Spec.Decode
-/- C02 — first theorems (extended below as they are proved) -/
-namespace EpModel.Props.C02
-open EpModel EpModel.Dec
+import EpModel.Lemmas.DecTotal
+import EpModel.Props.C08Net
+import EpModel.Props.C13
+import EpModel.Props.C17
+/-
+  C02 — decoders are total: Ok or Err for every input, never a panic or a hang.
 
-/-- every strict UDP slice lies inside the slice it was cut from. -/
-theorem udp_within (g : Mem) (o l : Nat) (w : Win) (h : udpFromSlice g o l = .ok w) :
-    o ≤ w.o ∧ w.o + w.l ≤ o + l := by
-  unfold udpFromSlice at h
+  * Termination: every function of the decode model (cursors, the 13 IP boundary implementations,
+    the extension walkers `extsLoop`, the re-walk iterator `extIterAll`, the Spec walk) is a total
+    Lean definition accepted by the kernel with structural recursion or an explicit strictly
+    decreasing measure (`termination_by l` — the remaining length) and no fuel argument, so "no
+    unbounded loop" is checked, not tested; `walker_progress` states the measure.
+  * Bounds on what iterators yield: `ext_iter_bound` (here), TCP options (`C13.iter_bound`), NDP options
+    (`C17.ndp_step_consumes`), re-stated below so that the audit of this property covers them.
+  * The conversions that `unwrap`/`expect`: `to_header_exts_total` (the struct re-decode of a
+    validated IPv6 extension slice in `IpSlice::to_header`), `auth_to_header_total`,
+    `raw_ext_to_header_total` (from C08) cannot fail.
+  * No arithmetic underflow: every subtraction of the model sits behind the check the Rust code
+    makes (`*_within` of C01 give `hl ≤ l` etc. at each site).
+  The model has no panic value for the decode paths: what is proved is that the modelled checks
+  imply the preconditions of every `[a..b]`, `unwrap`, `expect` and subtraction on those paths; the
+  harness (catch_unwind, overflow checks, step-bounded iteration) looks for the same on the code.
+-/
+namespace EpModel.Props.C02
+open EpModel EpModel.Dec EpModel.Lemmas.Dec
+
+/-- every successful step of the extension re-walk consumes at least 8 bytes and hands out exactly
+    the bytes it consumed: progress, no gap, no overlap -/
+theorem walker_progress (g : Mem) (nh o l : Nat) (k : ExtKind) (w : Win) (nh' o' l' : Nat)
+    (h : extIterNext g nh o l = some (.ok (k, w, nh', o', l'))) :
+    l' + 8 ≤ l ∧ o' + l' = o + l ∧ w.o = o ∧ w.o + w.l = o' :=
+  extIterNext_progress g nh o l k w nh' o' l' h
+
+/-- the iterator yields at most `len / 8` items -/
+theorem ext_iter_bound (g : Mem) (nh o l : Nat) (xs : List (ExtKind × Win))
+    (h : extIterAll g nh o l = .ok xs) : xs.length * 8 ≤ l :=
+  extIterAll_bound g nh o l xs h
+
+/-- the rest of every extension walk (strict, lax, slice mode, struct mode) is a suffix of the
+    slice walked: the walk only moves forward -/
+theorem walk_moves_forward (g : Mem) (sm : Bool) (nh o l : Nat) :
+    (extsWalk g sm nh o l).rest.o + (extsWalk g sm nh o l).rest.l = o + l ∧
+      (extsWalk g sm nh o l).rest.l ≤ l :=
+  extsWalk_suffix g sm nh o l
+
+/-- `IpSlice::to_header` re-decodes the validated extension slice with `Ipv6Extensions::from_slice`
+    and calls `expect`: for every input the strict slice-mode walk accepts, that re-decode succeeds
+    (it may stop early at a header that does not fit the struct, it never errs). -/
+theorem to_header_exts_total (g : Mem) (nh o l : Nat) (r : ExtsOut)
+    (h : extsWalkStrict g false nh o l = .ok r) : (extsWalk g true nh o (l - r.rest.l)).stop = none :=
+  structWalk_total_on_validated g nh o l r h
+
+/-- `IpAuthHeaderSlice::to_header` (`IpAuthHeader::new(..).unwrap()`) cannot panic on any input of
+    `from_slice` (theorem of the codec model, C08) -/
+theorem auth_to_header_total (b : Bytes) :
+    CodecNet.IpAuthHeader.fromSlice b ≠ .error .panicUnwrap := C08Net.Auth.no_unwrap_panic b
+
+/-- `Ipv6RawExtHeaderSlice::to_header` (`new_raw(..).unwrap()`) cannot panic -/
+theorem raw_ext_to_header_total (b : Bytes) :
+    CodecNet.Ipv6RawExtHeader.fromSlice b ≠ .error .panicUnwrap := C08Net.RawExt.no_unwrap_panic b
+
+/-- TCP options iterator: at most `len` items, every step shrinks the rest (C13) -/
+theorem tcp_options_iter_bound (b : Bytes) :
+    (TcpOptions.iterate b).length ≤ b.length ∧
+      (∀ r s, TcpOptions.next b = (some r, s) → s.length < b.length) := C13.iter_bound b
+
+/-- the subtractions of the strict IPv4 path cannot underflow: header ≤ slice, header ≤ total length
+    ≤ slice, authentication header ≤ payload -/
+theorem ipv4_no_underflow (g : Mem) (o l : Nat) (r : IpR) (h : ipv4SliceFromSlice g o l = .ok r) :
+    20 ≤ r.hdr.l ∧ r.hdr.l ≤ l ∧ r.hdr.o = o ∧ r.hdr.o + r.hdr.l ≤ r.pl.w.o ∧ r.pl.w.o + r.pl.w.l ≤ o + l := by
+  unfold ipv4SliceFromSlice at h
   split at h
   · contradiction
-  · simp only at h
+  · rename_i hl hh
+    have hb := ipv4Header_ok g o l hl hh
+    have h2 := ipv4AfterHeaderStrict_in g o l hl r hb.1 hb.2.1 h
+    have hpl := h2.1.2.2.2.2
+    unfold WIn at hpl
+    rw [h2.2]
+    simp only
+    refine ⟨hb.1, hb.2.1, trivial, ?_, hpl.2⟩
+    unfold ipv4AfterHeaderStrict at h
+    simp only at h
     split at h
     · contradiction
-    · split at h
-      · cases h; simp
+    · rename_i hp hbd
+      have : hp.o = o + hl := by
+        unfold ipv4BoundStrict at hbd
+        split at hbd
+        · contradiction
+        · split at hbd
+          · contradiction
+          · cases hbd; rfl
+      split at h
       · split at h
         · contradiction
-        · cases h; simp; omega
+        · contradiction
+        · cases h; simp [mkV4]; omega
+      · cases h; simp [mkV4]; omega
 
 end EpModel.Props.C02
